@@ -94,6 +94,46 @@ func emitCondPass(o *Out, srv, im, inm string) {
 	o.Emit("cond.pass", srv+" "+hx(im)+" "+hx(inm), res)
 }
 
+// the entity tag announced by PUT, GET, HEAD and PROPFIND for the same unmodified resource is one and the same string:
+// a file server over a synthetic FileSystem whose tag is arbitrary; the four raw announcements are compared
+func emitCondAnnounce(o *Out, tag string) {
+	res := guard(func() string {
+		fs := newMemFS()
+		fs.putTag = tag
+		h := &webdav.Handler{FileSystem: fs}
+		do := func(method, body string, hdr map[string]string) *httptest.ResponseRecorder {
+			req := httptest.NewRequest(method, "http://example.com/f.txt", strings.NewReader(body))
+			for k, v := range hdr {
+				req.Header.Set(k, v)
+			}
+			rec := httptest.NewRecorder()
+			h.ServeHTTP(rec, req)
+			return rec
+		}
+		put := do("PUT", "data", nil)
+		get := do("GET", "", nil)
+		head := do("HEAD", "", nil)
+		pf := do("PROPFIND", `<?xml version="1.0"?><D:propfind xmlns:D="DAV:"><D:prop><D:getetag/></D:prop></D:propfind>`, map[string]string{"Content-Type": "application/xml", "Depth": "0"})
+		getetag := "absent"
+		if t, err := treeOfBytes(pf.Body.Bytes()); err == nil {
+			var walk func(n *xNode)
+			walk = func(n *xNode) {
+				if n.elem && n.space == "DAV:" && n.local == "getetag" {
+					getetag = "text:" + flatText(n)
+				}
+				for _, c := range n.children {
+					walk(c)
+				}
+			}
+			walk(t)
+		}
+		return fmt.Sprintf("%d %s %d %s %d %s %d %s", put.Code, hx(put.Header().Get("ETag")), get.Code, hx(get.Header().Get("ETag")),
+			head.Code, hx(head.Header().Get("ETag")), pf.Code, hx(getetag))
+	})
+	o.Stat("cond.announce")
+	o.Emit("cond.announce", hx(tag), res)
+}
+
 func setIfAny(h map[string][]string, k, v string) {
 	if v != "" {
 		h[k] = []string{v}
@@ -120,6 +160,16 @@ func famCond(o *Out, r *RNG, thorough bool) {
 				emitCondPass(o, "card", inm, im)
 			}
 			emitCondMatch(o, im, "other")
+		}
+	}
+	for _, tag := range owETagPool {
+		if tag != "" {
+			emitCondAnnounce(o, tag)
+		}
+	}
+	for i := 0; i < 300; i++ {
+		if tag := randFrom(r, tagAlphabet, 6); tag != "" {
+			emitCondAnnounce(o, tag)
 		}
 	}
 	n := 3000
